@@ -286,8 +286,9 @@ void RunScenario(Scenario sc) {
 
 int main(int argc, char** argv) {
   vrt::Main m(argc, argv);
-  // Deadlines are kept off the scheduler's 10 ns grid: Scheduler::SleepPreemptive (fault layer, C18's subject) looks up
-  // _sleep_list.end() when a deadline equals the current virtual time.  -5: already passed when the wait starts.
+  // Deadlines are kept off the scheduler's 10 ns grid (chosen while Scheduler::SleepPreemptive, fault layer, still looked
+  // up _sleep_list.end() for a deadline equal to the current virtual time; fixed in /repo by 8621598).
+  // -5: already passed when the wait starts.
   const long deadlines[] = {-5, 15, 55, 1000005};
   const bool light = m.Param("light") == "1";
   for (int form = 0; form < kForms; ++form) {
